@@ -1,13 +1,20 @@
 (* C05 — leaving a cancel scope leaves no residue in the task or the loop.
-   This file contains only statements closed by `exact` and their Print Assumptions. *)
-From AV Require Import Base Machine ScopeFrames PotentialThms.
+   This file contains only statements closed by `exact` and their Print Assumptions.
+   reach_ok2 s = s is reached from init by an op list of the generated domain (TreeStep.op_ok, see props/C03.v)
+   in which explicit uncancel() is only used while the counter exceeds the debts of the task's own scopes
+   (PotentialThms.unc_ok: the floor-free case).  phi s t = ncancel t - sum of _pending_uncancellations of the
+   scopes hosted by t. *)
+From Coq Require Import ZArith.
+From AV Require Import Base Machine ScopeFrames DeliverInv TreeInv DeliverAlive PotentialInv TreeStep PotentialThms.
 
+(* the three RuntimeError guards of __exit__: otherwise nothing changes *)
 Theorem C05_scope_exit_guarded : forall s c t exc,
   ~ (s_active (scopes s c) = true /\ s_host (scopes s c) = Some t /\ k_cur (tasks s t) = Some c) ->
   scope_exit s c t exc = (s, XRaise ERuntime).
 Proof. exact scope_exit_guarded. Qed.
 Print Assumptions C05_scope_exit_guarded.
 
+(* scope_ptr_restored + no_residual_timer: pointer, parent links, host, flags, timer of the scope *)
 Theorem C05_scope_ptr_restored : forall s c t exc,
   s_active (scopes s c) = true -> s_host (scopes s c) = Some t -> k_cur (tasks s t) = Some c ->
   let s' := fst (scope_exit s c t exc) in
@@ -21,3 +28,69 @@ Theorem C05_scope_ptr_restored : forall s c t exc,
      (forall h, In h (ready s') -> is_timer_handle tm h = false)).
 Proof. exact scope_ptr_restored. Qed.
 Print Assumptions C05_scope_ptr_restored.
+
+(* I5, first half: the counter never falls below the task's own debts; an unhosted scope owes nothing *)
+Theorem C05_potential_nonneg : forall s, reach_ok2 s ->
+  (forall t, pending_of s t <= k_ncancel (tasks s t)) /\
+  (forall c, s_host (scopes s c) = None -> s_pending (scopes s c) = 0).
+Proof. exact potential_nonneg. Qed.
+Print Assumptions C05_potential_nonneg.
+
+(* I5: own cancellations are compensated.  One op changes phi t only as follows: a native cancel of a live
+   task adds 1, an explicit uncancel subtracts 1, every other op can only add requests coming from scopes hosted
+   by other tasks (never for a task that is not a group child) *)
+Theorem C05_own_cancels_compensated : forall s o t,
+  reach_ok2 s -> op_ok s o = true -> unc_ok s o = true -> alloc_t s t ->
+  let s' := fst (step s o) in
+  match o with
+  | ANativeCancel t0 =>
+      phi s' t = (if Nat.eqb t t0 then (if k_done (tasks s t0) then phi s t else phi s t + 1) else phi s t)%Z
+  | AUncancel t0 =>
+      phi s' t = (if Nat.eqb t t0 && idle s t0 then phi s t - 1 else phi s t)%Z
+  | _ => (phi s t <= phi s' t)%Z /\ (k_group (tasks s t) = None -> phi s' t = phi s t)
+  end.
+Proof. exact own_cancels_compensated. Qed.
+Print Assumptions C05_own_cancels_compensated.
+
+(* cancelling_restored: along any run, for a task that is not a group child, phi moves only by native cancels
+   and explicit uncancels, whatever scopes were entered, cancelled, re-delivered and left in between *)
+Theorem C05_cancelling_restored : forall ops s t,
+  reach_ok2 s -> ops_ok2 s ops = true -> alloc_t s t -> k_group (tasks s t) = None ->
+  phi (final step s ops) t = (phi s t + ext_count s ops t)%Z.
+Proof. exact cancelling_restored. Qed.
+Print Assumptions C05_cancelling_restored.
+
+Theorem C05_cancelling_restored_counter : forall ops s t,
+  reach_ok2 s -> ops_ok2 s ops = true -> alloc_t s t -> k_group (tasks s t) = None ->
+  pending_of s t = 0 -> pending_of (final step s ops) t = 0 ->
+  Z.of_nat (k_ncancel (tasks (final step s ops) t)) = (Z.of_nat (k_ncancel (tasks s t)) + ext_count s ops t)%Z.
+Proof. exact cancelling_restored_counter. Qed.
+Print Assumptions C05_cancelling_restored_counter.
+
+(* what __exit__ does with the debt: pending_handover (same-task parent), payment, no_foreign_handover (F6) *)
+Theorem C05_exit_debt_settled : forall s c t exc,
+  s_active (scopes s c) = true -> s_host (scopes s c) = Some t -> k_cur (tasks s t) = Some c ->
+  s_parent (scopes s c) <> Some c ->
+  let s5 := restart (exit_struct s c t) (s_parent (scopes s c)) in
+  let n := s_pending (scopes s5 c) in
+  let sf := fst (scope_exit s c t exc) in
+  s_pending (scopes sf c) = 0 /\ s_host (scopes sf c) = None /\
+  ((exists p, s_parent (scopes s c) = Some p /\ s_host (scopes s5 p) = Some t /\
+              s_pending (scopes sf p) = s_pending (scopes s5 p) + n /\
+              k_ncancel (tasks sf t) = k_ncancel (tasks s5 t)) \/
+   (k_ncancel (tasks sf t) = k_ncancel (tasks s5 t) - n /\
+    forall x, x <> c -> s_pending (scopes sf x) = s_pending (scopes s5 x))) /\
+  (forall x, x <> c -> s_host (scopes s5 x) <> Some t -> s_pending (scopes sf x) = s_pending (scopes s5 x)) /\
+  (forall t', t' <> t -> k_ncancel (tasks sf t') = k_ncancel (tasks s5 t')).
+Proof. exact exit_debt_settled. Qed.
+Print Assumptions C05_exit_debt_settled.
+
+(* a delivery callback left in the ready queue after its scope was exited runs once and is gone *)
+Theorem C05_leftover_deliver_runs_once : forall s c,
+  reach_ok s -> s_active (scopes s c) = false -> In (HDeliver c) (ready s) ->
+  let s' := fst (step s (ARun (HDeliver c))) in
+  s_chandle (scopes s' c) = false /\ ready s' = remove_first (HDeliver c) (ready s) /\
+  tasks s' = tasks s /\ timers s' = timers s /\
+  (forall x, x <> c -> scopes s' x = scopes s x).
+Proof. exact leftover_deliver_runs_once. Qed.
+Print Assumptions C05_leftover_deliver_runs_once.
